@@ -44,6 +44,10 @@ the path root..pointer. It holds at genesis and is kept by `doTx`, `play`, `play
 refused undo or a failing block leaves the node at an intermediate block whose path explains its tables). So
 (`Ledger`, `ChainLog`) is an inductive invariant of the reachable states. `hre` is needed: `walk_Ledger_needs_hre`,
 `walk_Ledger_chain_needs_hre` (a pending transaction without token input that the new branch confirms is re-admitted).
+The joint invariant — `XV.C02.LedgerAll` (tokens and key versions over one ghost log) together with `ChainLog` — is kept
+by every operation: `LedgerAll_chain_genesis`, `doTx_LedgerAll_chain`, `play_LedgerAll_chain`,
+`playForMiner_LedgerAll_chain`, and `walk_LedgerAll_chain_full` (every outcome of a walk; `hre` in the weaker form "token
+input or key write").
 -/
 namespace XV.C01
 open XV.Chain XV.C02
@@ -2048,5 +2052,372 @@ example : Ledger wfEnv (walk wfEnv wfB 0 12 false).1 [100, 9, 1] := by
     unfold ChainLog at c2
     rw [c2]; decide
   rw [← h4]; exact c1
+
+-- ================================================================== the joint invariant: tokens, key versions, chain shape
+
+/-- **the undo loop of `walk` keeps the triple (`Ledger`, `LedgerK`, `ChainLog`) at every block it stops at**
+(`undoAll_LedgerChain` with the key tables) -/
+theorem undoAll_LedgerAllChain (e : Env) (prune : Bool) (hpl : ParentLower e) (hgen : ChainLog e {} [])
+    (undo : List Nat) : ∀ (st : St) (C0 : List Nat),
+    LedgerAll e st (C0 ++ blockTxs e undo.reverse) → st.pool = [] → ChainLog e st (C0 ++ blockTxs e undo.reverse) →
+    (∃ tl, ancestors e (e.blocks.length + 1) st.pointer = undo ++ tl) →
+    ∃ C', LedgerAll e (walk.undoAll e prune undo st).1 C' ∧ (walk.undoAll e prune undo st).1.pool = [] ∧
+      ChainLog e (walk.undoAll e prune undo st).1 C' ∧ ((walk.undoAll e prune undo st).2 = true → C' = C0) := by
+  induction undo with
+  | nil =>
+    intro st C0 h hp hc _
+    unfold walk.undoAll
+    have hC : C0 ++ blockTxs e ([] : List Nat).reverse = C0 := by simp [blockTxs]
+    rw [hC] at h hc
+    exact ⟨C0, h, hp, hc, fun _ => rfl⟩
+  | cons bi rest ih =>
+    intro st C0 h hp hc hpre
+    unfold walk.undoAll
+    simp only
+    split
+    · exact ⟨_, h, hp, hc, by simp⟩
+    · obtain ⟨tl, htl⟩ := hpre
+      obtain ⟨hbi, hrest⟩ := ancestors_prefix_step e hpl st.pointer bi rest tl htl
+      subst hbi
+      rw [List.reverse_cons, blockTxs_snoc, ← List.append_assoc] at h hc
+      obtain ⟨h1, h2⟩ := undoBlock_Ledger e st (e.block st.pointer) prune _ h.1 hp
+      obtain ⟨k1, _⟩ := undoBlock_LedgerK e st (e.block st.pointer) prune _ h.2 hp
+      have h3 := undoBlock_ChainLog e hpl hgen st prune _ hc
+      exact ih _ C0 ⟨h1, k1⟩ h2 h3 hrest
+
+/-- **the apply loop of `walk` keeps the triple at every block it stops at** (`todoAll_LedgerChain` with the key tables;
+`hblk` also asks one write per key of the transactions of the blocks to apply) -/
+theorem todoAll_LedgerAllChain (e : Env) (lh : Int) (hpl : ParentLower e) (dest : Nat) (P T : List Nat)
+    (hpath : (ancestors e (e.blocks.length + 1) dest).reverse = P ++ T)
+    (hids : ∀ bi ∈ T, (e.block bi).id = bi)
+    (hnd : (blockTxs e (P ++ T)).Nodup)
+    (hblk : ∀ bi ∈ T, (∀ i ∈ (e.block bi).txs, (e.tx i).id = i) ∧
+      (∀ i ∈ (e.block bi).txs, (e.tx i).coinbase = true → (e.tx i).ins = [] ∧ feeOf (e.tx i).outs = 0) ∧
+      (∀ i ∈ (e.block bi).txs, ((e.tx i).kout.map (·.key)).Nodup))
+    (todo : List Nat) : ∀ (done : List Nat) (st : St), T = done ++ todo →
+    LedgerAll e st (blockTxs e (P ++ done)) → st.pool = [] → ChainLog e st (blockTxs e (P ++ done)) →
+    ∃ C', LedgerAll e (walk.todoAll e lh todo st).1 C' ∧ (walk.todoAll e lh todo st).1.pool = [] ∧
+      ChainLog e (walk.todoAll e lh todo st).1 C' ∧
+      ((walk.todoAll e lh todo st).2 = true → C' = blockTxs e (P ++ T)) := by
+  induction todo with
+  | nil =>
+    intro done st hT h hp hc
+    unfold walk.todoAll
+    rw [List.append_nil] at hT
+    exact ⟨_, h, hp, hc, fun _ => by rw [hT]⟩
+  | cons bi rest ih =>
+    intro done st hT h hp hc
+    unfold walk.todoAll
+    have hbiT : bi ∈ T := by rw [hT]; simp
+    obtain ⟨b1, b2, b3⟩ := hblk bi hbiT
+    cases htb : todoBlock e st lh (e.block bi) with
+    | none => exact ⟨_, h, hp, hc, by simp⟩
+    | some st' =>
+      simp only
+      have hsplit : blockTxs e (P ++ T) = blockTxs e (P ++ done) ++ ((e.block bi).txs ++ blockTxs e rest) := by
+        rw [hT, ← List.append_assoc, blockTxs_append, blockTxs_cons]
+      rw [hsplit] at hnd
+      obtain ⟨_, hndR, hdis⟩ := List.nodup_append.mp hnd
+      have hnewC : ∀ i ∈ (e.block bi).txs, i ∉ blockTxs e (P ++ done) :=
+        fun i hi hc' => hdis i hc' i (List.mem_append_left _ hi) rfl
+      obtain ⟨t1, t2⟩ := todoBlock_Ledger e st st' lh (e.block bi) _ htb h.1 hp
+        (List.nodup_append.mp hndR).1 b1 hnewC b2
+      obtain ⟨k1, _⟩ := todoBlock_LedgerK e st st' lh (e.block bi) _ htb h.2 hp
+        (List.nodup_append.mp hndR).1 b1 hnewC b3
+      have hdone : blockTxs e (P ++ done) ++ (e.block bi).txs = blockTxs e (P ++ (done ++ [bi])) := by
+        rw [← List.append_assoc, blockTxs_snoc]
+      rw [hdone] at t1 k1
+      have hc' : ChainLog e st' (blockTxs e (P ++ (done ++ [bi]))) := by
+        unfold ChainLog
+        rw [todoBlock_pointer e st st' lh (e.block bi) htb, hids bi hbiT,
+          path_prefix e hpl dest bi (P ++ done) rest (by rw [hpath, hT, List.append_assoc]), List.append_assoc]
+      exact ih (done ++ [bi]) st' (by rw [hT, List.append_assoc]; rfl) ⟨t1, k1⟩ t2 hc'
+
+/-- **`walk` keeps the triple (`Ledger`, `LedgerK`, `ChainLog`) in EVERY outcome** — the capstone: the UTXO table, the key
+tables and the pointer are explained by ONE ghost log, the transactions of the blocks on the path root..pointer, followed
+by the pool; after success, after an undo refused at the irreversible height, and after a block of the new branch that
+fails admission (the node then stays at an intermediate block with an empty pool). `walk_Ledger_chain_full` with
+`LedgerAll` for `Ledger`; `hblk` also asks one write per key of the transactions of the blocks to apply; `hre` is the
+weaker one of `XV.C02.walk_LedgerK`: a pending transaction that the destination's path confirms has a token input OR writes
+a key (what remains excluded is exactly the witness of `walk_Ledger_needs_hre`). -/
+theorem walk_LedgerAll_chain_full (e : Env) (s : St) (lh : Int) (dest : Nat) (prune : Bool) (C : List Nat)
+    (hpl : ParentLower e) (hgen : ChainLog e {} []) (h : LedgerAll e s C) (hc : ChainLog e s C)
+    (hids : ∀ bi ∈ (undoTodo e s.pointer dest).2, (e.block bi).id = bi)
+    (hnd : (blockTxs e (ancestors e (e.blocks.length + 1) dest).reverse).Nodup)
+    (hblk : ∀ bi ∈ (undoTodo e s.pointer dest).2, (∀ i ∈ (e.block bi).txs, (e.tx i).id = i) ∧
+      (∀ i ∈ (e.block bi).txs, (e.tx i).coinbase = true → (e.tx i).ins = [] ∧ feeOf (e.tx i).outs = 0) ∧
+      (∀ i ∈ (e.block bi).txs, ((e.tx i).kout.map (·.key)).Nodup))
+    (hre : ∀ i ∈ s.pool, i ∈ blockTxs e (ancestors e (e.blocks.length + 1) dest).reverse →
+      (e.tx i).ins ≠ [] ∨ (e.tx i).kout ≠ []) :
+    ∃ C', LedgerAll e (walk e s lh dest prune).1 C' ∧ ChainLog e (walk e s lh dest prune).1 C' ∧
+      ((walk e s lh dest prune).2 = true →
+        C' = blockTxs e (ancestors e (e.blocks.length + 1) dest).reverse) := by
+  obtain ⟨pre, p1, p2⟩ := undoTodo_paths e s.pointer dest hpl
+  have hcur : ancestors e (e.blocks.length + 1) s.pointer = (undoTodo e s.pointer dest).1 ++ pre.reverse := by
+    have := congrArg List.reverse p1
+    rw [List.reverse_reverse] at this
+    rw [this]; simp
+  have hC : C = blockTxs e pre ++ blockTxs e (undoTodo e s.pointer dest).1.reverse := by
+    unfold ChainLog at hc
+    rw [hc, p1, blockTxs_append]
+  rw [walk_shape]
+  simp only
+  -- step 1: roll the pool back
+  have hl := h.1.led
+  have hk := h.2
+  obtain ⟨_, hndP, hCP⟩ := List.nodup_append.mp hl.nodupA
+  obtain ⟨_, hoP, _⟩ := List.pairwise_append.mp hl.order
+  obtain ⟨_, hkP, hkCP⟩ := List.pairwise_append.mp hk.orderK
+  have hndr : s.pool.reverse.Nodup := by
+    unfold List.Nodup
+    rw [List.pairwise_reverse]
+    exact List.Pairwise.imp (fun h => fun e2 => h e2.symm) hndP
+  have hfold := undoFold_LedSum e s.pool.reverse s C s.pool h.1 hndr (fun t ht => List.mem_reverse.mp ht)
+    (by rw [List.pairwise_reverse]; exact hoP) (fun t _ j hj _ => List.mem_reverse.mpr hj)
+  have hnil : s.pool.filter (fun x => !s.pool.reverse.contains x) = [] := by
+    apply List.filter_eq_nil_iff.mpr; intro a ha; simp [ha]
+  rw [hnil] at hfold
+  have hfoldK := undoFold_LedK e s.pool.reverse s (C ++ s.pool) hk hndr
+    (fun t ht => List.mem_append_right _ (List.mem_reverse.mp ht))
+    (by rw [List.pairwise_reverse]; exact hkP)
+    (fun t ht j hj hc => by
+      rcases List.mem_append.mp hj with hjC | hjP
+      · exact absurd hc (hkCP j hjC t (List.mem_reverse.mp ht))
+      · exact List.mem_reverse.mpr hjP)
+  have hfilA : (C ++ s.pool).filter (fun x => !s.pool.reverse.contains x) = C ++ [] := by
+    rw [List.filter_append, hnil]
+    congr 1
+    apply List.filter_eq_self.mpr
+    intro a ha
+    have hap : a ∉ s.pool := fun hm => hCP a ha a hm rfl
+    simp [hap]
+  rw [hfilA] at hfoldK
+  have hptr0 : ({ (s.pool.reverse.foldl (fun st i => undoTx e st (e.tx i)) s) with pool := [] } : St).pointer
+      = s.pointer := foldl_undoTx_pointer e s.pool.reverse s
+  have h0 : LedgerAll e { (s.pool.reverse.foldl (fun st i => undoTx e st (e.tx i)) s) with pool := [] }
+      (blockTxs e pre ++ blockTxs e (undoTodo e s.pointer dest).1.reverse) := by
+    rw [← hC]; exact ⟨LedSum.congr hfold rfl rfl, LedK.congr hfoldK rfl rfl⟩
+  have hc0 : ChainLog e { (s.pool.reverse.foldl (fun st i => undoTx e st (e.tx i)) s) with pool := [] }
+      (blockTxs e pre ++ blockTxs e (undoTodo e s.pointer dest).1.reverse) := by
+    rw [← hC]
+    unfold ChainLog at hc ⊢
+    rw [hptr0]; exact hc
+  -- step 2: undo blocks
+  obtain ⟨C1, u1, u2, u3, u4⟩ := undoAll_LedgerAllChain e prune hpl hgen (undoTodo e s.pointer dest).1 _
+    (blockTxs e pre) h0 rfl hc0 ⟨pre.reverse, by rw [hptr0]; exact hcur⟩
+  cases hr1 : (walk.undoAll e prune (undoTodo e s.pointer dest).1
+      { (s.pool.reverse.foldl (fun st i => undoTx e st (e.tx i)) s) with pool := [] }).2 with
+  | false => exact ⟨C1, by simpa [hr1] using u1, by simpa [hr1] using u3, by simp [hr1]⟩
+  | true =>
+    simp only [hr1, Bool.not_true, Bool.false_eq_true, ↓reduceIte]
+    have hC1 := u4 hr1
+    rw [hC1] at u1 u3
+    -- step 3: apply blocks
+    obtain ⟨C2, t1, t2, t3, t4⟩ := todoAll_LedgerAllChain e lh hpl dest pre (undoTodo e s.pointer dest).2 p2 hids
+      (by rw [← p2]; exact hnd) hblk (undoTodo e s.pointer dest).2 [] _ rfl
+      (by rw [List.append_nil]; exact u1) u2 (by rw [List.append_nil]; exact u3)
+    cases hr2 : (walk.todoAll e lh (undoTodo e s.pointer dest).2
+        (walk.undoAll e prune (undoTodo e s.pointer dest).1
+          { (s.pool.reverse.foldl (fun st i => undoTx e st (e.tx i)) s) with pool := [] }).1).2 with
+    | false => exact ⟨C2, by simpa [hr2] using t1, by simpa [hr2] using t3, by simp [hr2]⟩
+    | true =>
+      simp only [hr2, Bool.not_true, Bool.false_eq_true, ↓reduceIte]
+      have hC2 := t4 hr2
+      rw [hC2, ← p2] at t1 t3
+      -- step 4: re-submit the pool
+      refine ⟨_, readmit_LedgerAll e lh s.pool _ _ t1 ?_, ?_, fun _ => rfl⟩
+      · intro i hi
+        exact ⟨hl.idEq i (List.mem_append_right _ hi), hre i hi, h.1.poolNonCoinbase i hi,
+          (hk.wf i (List.mem_append_right _ hi)).koutNodup⟩
+      · unfold ChainLog at t3 ⊢
+        rw [foldl_doTx_pointer]; exact t3
+
+/-- the triple holds at the initial state, for the empty log (block id 0 not registered, see `ChainLog_genesis`) -/
+theorem LedgerAll_chain_genesis (e : Env) (h0 : (e.block 0).pre = none) (h1 : (e.block 0).txs = []) :
+    LedgerAll e {} [] ∧ ChainLog e {} [] :=
+  ⟨LedgerAll_genesis e, ChainLog_genesis e h0 h1⟩
+
+/-- **`doTx` keeps the triple**, over the same log (hypotheses of `XV.C02.doTx_LedgerAll`) -/
+theorem doTx_LedgerAll_chain (e : Env) (s : St) (lh : Int) (i : Nat) (C : List Nat)
+    (h : LedgerAll e s C ∧ ChainLog e s C)
+    (hyp : (doTx e s lh i).2 = .ok → (e.tx i).id = i ∧ (i ∈ C → (e.tx i).ins ≠ [] ∨ (e.tx i).kout ≠ []) ∧
+      (e.tx i).coinbase = false ∧ ((e.tx i).kout.map (·.key)).Nodup) :
+    LedgerAll e (doTx e s lh i).1 C ∧ ChainLog e (doTx e s lh i).1 C :=
+  ⟨doTx_LedgerAll e s lh i C h.1 hyp, doTx_ChainLog e s lh i C h.2⟩
+
+/-- **`play` keeps the triple**: the transactions of an accepted block join the one log (hypotheses of
+`XV.C02.play_LedgerAll` and `play_ChainLog`; nothing about the validity of the block) -/
+theorem play_LedgerAll_chain (e : Env) (s : St) (lh : Int) (b : Block) (C : List Nat) (hpl : ParentLower e)
+    (hb : e.block b.id = b) (h : LedgerAll e s C ∧ ChainLog e s C)
+    (hnd : b.txs.Nodup) (hid : ∀ i ∈ b.txs, (e.tx i).id = i) (hnewC : ∀ i ∈ b.txs, i ∉ C)
+    (haward : ∀ i ∈ b.txs, i ∉ s.pool → (e.tx i).coinbase = true → (e.tx i).ins = [] ∧ feeOf (e.tx i).outs = 0)
+    (hkw : ∀ i ∈ b.txs, ((e.tx i).kout.map (·.key)).Nodup) :
+    LedgerAll e (play e s lh b).1 (if (play e s lh b).2 = .ok then C ++ b.txs else C) ∧
+    ChainLog e (play e s lh b).1 (if (play e s lh b).2 = .ok then C ++ b.txs else C) :=
+  ⟨play_LedgerAll e s lh b C h.1 hnd hid hnewC haward hkw, play_ChainLog e s lh b C hpl hb h.2⟩
+
+/-- **`playForMiner` keeps the triple** (hypotheses of `XV.C02.playForMiner_Ledger`, `playForMiner_LedgerK` and
+`playForMiner_ChainLog`: what the miner packs) -/
+theorem playForMiner_LedgerAll_chain (e : Env) (s : St) (lh : Int) (b : Block) (C : List Nat) (hpl : ParentLower e)
+    (hb : e.block b.id = b) (h : LedgerAll e s C ∧ ChainLog e s C)
+    (hnd : b.txs.Nodup) (hid : ∀ i ∈ b.txs, (e.tx i).id = i) (hnewC : ∀ i ∈ b.txs, i ∉ C)
+    (hsub : ∀ i ∈ b.txs, (e.tx i).coinbase = false → i ∈ s.pool)
+    (haward : ∀ i ∈ b.txs, (e.tx i).coinbase = true → (e.tx i).ins = [] ∧ feeOf (e.tx i).outs = 0)
+    (hkw : ∀ i ∈ b.txs, ((e.tx i).kout.map (·.key)).Nodup)
+    (hparents : ∀ i ∈ b.txs, ∀ r ∈ (e.tx i).ins, r.tx ∈ s.pool → r.tx ∈ b.txs)
+    (hord : b.txs.Pairwise (fun a b => ∀ r ∈ (e.tx a).ins, r.tx ≠ b))
+    (hparentsK : ∀ i ∈ b.txs, ∀ p ∈ s.pool, citesK e i p → p ∈ b.txs)
+    (hordK : b.txs.Pairwise (fun a c => ¬ citesK e a c)) :
+    LedgerAll e (playForMiner e s lh b).1 (if (playForMiner e s lh b).2 = .ok then C ++ b.txs else C) ∧
+    ChainLog e (playForMiner e s lh b).1 (if (playForMiner e s lh b).2 = .ok then C ++ b.txs else C) :=
+  ⟨⟨playForMiner_Ledger e s lh b C h.1.1 hnd hid hnewC hsub haward hparents hord,
+    playForMiner_LedgerK e s lh b C h.1.2 hnd hid hnewC hsub h.1.1.poolNonCoinbase hkw hparentsK hordK⟩,
+   playForMiner_ChainLog e s lh b C hpl hb h.2⟩
+
+-- non-vacuity of the joint invariant: the history with key reads and writes of the `LedgerK` example of C02, in a tree with
+-- heights (so that `ParentLower` holds). Transaction 1 only READS "k" (never written), 2 reads the same version and WRITES
+-- "k", 3 spends an output of 2, 4 is independent, 5 reads "k" at the version written by 2 and writes it again (no tokens).
+-- Blocks: 10 = [100 (genesis)] on the unregistered block 0; on 10: 11 = [9 (award), 2], 12 = [8 (award), 1],
+-- 13 = [9, 1, 2] (what the miner packs from the pool [1, 2]), 14 = [8, 2, 5]; on 12: 15 = [7 (award), 3] — transaction 3
+-- spends an output of 2, which is not on the branch of 12, so block 15 fails admission.
+--   genesis; block 10 played; submissions 1 2 3 4; block 11 played (1 evicted, 2 and 3 rolled back, 2 applied again;
+--   pool [4]); submission 5 (pool [4, 5]) -> node `kcS6` at 11. The triple holds after every step (`kcS1_all` ..
+--   `kcS6_all`, by the `_chain` theorems), for the logs [], [100], [100, 9, 2]. From `kcS6`:
+--   walk to 14: pool rolled back, 11 undone, 14 applied, 4 re-admitted, 5 — confirmed by 14, no token input, but it writes
+--     "k" — refused: SUCCESS, log [100, 8, 2, 5], pool [4], "k" at (5, 0);
+--   walk to 15: 11 undone, 12 applied, 15 FAILS: the node stays at 12 with an empty pool, log [100, 8, 1], "k" never
+--     written.
+private def kcEnv : Env := {
+  txs := [
+    (100, ⟨100, true, [], [⟨"u0", 5, 0⟩, ⟨"u0", 7, 0⟩, ⟨"u0", 4, 0⟩], [], []⟩),
+    (1, ⟨1, false, [⟨100, 0, "u0", 5, 0, false⟩], [⟨"u1", 4, 0⟩, ⟨"$", 1, 0⟩], [⟨"k", none⟩], []⟩),
+    (2, ⟨2, false, [⟨100, 1, "u0", 7, 0, false⟩], [⟨"u2", 6, 0⟩, ⟨"$", 1, 0⟩], [⟨"k", none⟩], [⟨"k", "a", false⟩]⟩),
+    (3, ⟨3, false, [⟨2, 0, "u2", 6, 0, false⟩], [⟨"u3", 6, 0⟩], [], []⟩),
+    (4, ⟨4, false, [⟨100, 2, "u0", 4, 0, false⟩], [⟨"u4", 3, 0⟩, ⟨"$", 1, 0⟩], [], []⟩),
+    (5, ⟨5, false, [], [], [⟨"k", some (2, 0)⟩], [⟨"k", "b", false⟩]⟩),
+    (9, ⟨9, true, [], [⟨"miner", 10, 0⟩], [], []⟩),
+    (8, ⟨8, true, [], [⟨"miner2", 10, 0⟩], [], []⟩),
+    (7, ⟨7, true, [], [⟨"miner2", 10, 0⟩], [], []⟩)],
+  blocks := [(10, ⟨10, some 0, 1, [100], "g"⟩), (11, ⟨11, some 10, 2, [9, 2], "miner"⟩),
+             (12, ⟨12, some 10, 2, [8, 1], "miner2"⟩), (13, ⟨13, some 10, 2, [9, 1, 2], "miner"⟩),
+             (14, ⟨14, some 10, 2, [8, 2, 5], "miner2"⟩), (15, ⟨15, some 12, 3, [7, 3], "miner2"⟩)] }
+
+private def kcS1 : St := (play kcEnv {} 0 (kcEnv.block 10)).1
+private def kcS2 : St := (doTx kcEnv (doTx kcEnv kcS1 0 1).1 0 2).1
+private def kcS4 : St := (doTx kcEnv (doTx kcEnv kcS2 0 3).1 0 4).1
+private def kcS5 : St := (play kcEnv kcS4 0 (kcEnv.block 11)).1
+private def kcS6 : St := (doTx kcEnv kcS5 0 5).1
+
+private theorem kcEnv_lower : ParentLower kcEnv := parentLower_of_blocks _ (by decide)
+
+private theorem kcS0_all : LedgerAll kcEnv {} [] ∧ ChainLog kcEnv {} [] :=
+  LedgerAll_chain_genesis kcEnv (by decide) (by decide)
+
+private theorem kcS1_all : LedgerAll kcEnv kcS1 [100] ∧ ChainLog kcEnv kcS1 [100] := by
+  have := play_LedgerAll_chain kcEnv {} 0 (kcEnv.block 10) [] kcEnv_lower (by decide) kcS0_all (by decide) (by decide)
+    (by decide) (by decide) (by decide)
+  rw [if_pos (by decide)] at this
+  exact this
+
+private theorem kcS2_all : LedgerAll kcEnv kcS2 [100] ∧ ChainLog kcEnv kcS2 [100] :=
+  doTx_LedgerAll_chain kcEnv _ 0 2 [100] (doTx_LedgerAll_chain kcEnv kcS1 0 1 [100] kcS1_all (fun _ => by decide))
+    (fun _ => by decide)
+
+private theorem kcS4_all : LedgerAll kcEnv kcS4 [100] ∧ ChainLog kcEnv kcS4 [100] :=
+  doTx_LedgerAll_chain kcEnv _ 0 4 [100] (doTx_LedgerAll_chain kcEnv kcS2 0 3 [100] kcS2_all (fun _ => by decide))
+    (fun _ => by decide)
+
+private theorem kcS5_ok : (play kcEnv kcS4 0 (kcEnv.block 11)).2 = .ok := by decide
+
+private theorem kcS5_all : LedgerAll kcEnv kcS5 [100, 9, 2] ∧ ChainLog kcEnv kcS5 [100, 9, 2] := by
+  have := play_LedgerAll_chain kcEnv kcS4 0 (kcEnv.block 11) [100] kcEnv_lower (by decide) kcS4_all (by decide)
+    (by decide) (by decide) (by decide) (by decide)
+  rw [if_pos kcS5_ok] at this
+  exact this
+
+private theorem kcS6_all : LedgerAll kcEnv kcS6 [100, 9, 2] ∧ ChainLog kcEnv kcS6 [100, 9, 2] :=
+  doTx_LedgerAll_chain kcEnv kcS5 0 5 [100, 9, 2] kcS5_all (fun _ => by decide)
+
+-- the steps are accepted and do what the comment says
+example : (play kcEnv {} 0 (kcEnv.block 10)).2 = .ok ∧ kcS4.pool = [1, 2, 3, 4] ∧
+    (play kcEnv kcS4 0 (kcEnv.block 11)).2 = .ok ∧ kcS5.pool = [4] ∧ (doTx kcEnv kcS5 0 5).2 = .ok ∧
+    kcS6.pool = [4, 5] ∧ kcS6.pointer = 11 ∧ curVer kcS4 "k" = some (2, 0) ∧ curVer kcS6 "k" = some (5, 0) := by
+  decide
+
+-- the miner's block 13 = [9, 1, 2] from the pool [1, 2]
+private theorem kcM_ok : (playForMiner kcEnv kcS2 0 (kcEnv.block 13)).2 = .ok := by decide
+
+example : kcS2.pool = [1, 2] ∧ (playForMiner kcEnv kcS2 0 (kcEnv.block 13)).2 = .ok ∧
+    LedgerAll kcEnv (playForMiner kcEnv kcS2 0 (kcEnv.block 13)).1 [100, 9, 1, 2] ∧
+    ChainLog kcEnv (playForMiner kcEnv kcS2 0 (kcEnv.block 13)).1 [100, 9, 1, 2] := by
+  have := playForMiner_LedgerAll_chain kcEnv kcS2 0 (kcEnv.block 13) [100] kcEnv_lower (by decide) kcS2_all (by decide)
+    (by decide) (by decide) (by decide) (by decide) (by decide) (by decide) (by decide) (by decide) (by decide)
+  rw [if_pos kcM_ok] at this
+  exact ⟨by decide, kcM_ok, this.1, this.2⟩
+
+-- the hypotheses of `walk_LedgerAll_chain_full` for the walk from `kcS6` to 14 (success) ...
+private theorem kcW14_ok : (walk kcEnv kcS6 0 14 false).2 = true := by decide
+
+private theorem kcW14_hyp : ChainLog kcEnv {} [] ∧ undoTodo kcEnv kcS6.pointer 14 = ([11], [14]) ∧
+    (∀ bi ∈ (undoTodo kcEnv kcS6.pointer 14).2, (kcEnv.block bi).id = bi) ∧
+    (blockTxs kcEnv (ancestors kcEnv (kcEnv.blocks.length + 1) 14).reverse).Nodup ∧
+    (∀ bi ∈ (undoTodo kcEnv kcS6.pointer 14).2, (∀ i ∈ (kcEnv.block bi).txs, (kcEnv.tx i).id = i) ∧
+      (∀ i ∈ (kcEnv.block bi).txs, (kcEnv.tx i).coinbase = true →
+        (kcEnv.tx i).ins = [] ∧ feeOf (kcEnv.tx i).outs = 0) ∧
+      (∀ i ∈ (kcEnv.block bi).txs, ((kcEnv.tx i).kout.map (·.key)).Nodup)) ∧
+    (∀ i ∈ kcS6.pool, i ∈ blockTxs kcEnv (ancestors kcEnv (kcEnv.blocks.length + 1) 14).reverse →
+      (kcEnv.tx i).ins ≠ [] ∨ (kcEnv.tx i).kout ≠ []) ∧
+    -- the pending transaction 5 is confirmed by the destination's path and has no token input: the stronger `hre` fails
+    5 ∈ kcS6.pool ∧ 5 ∈ blockTxs kcEnv (ancestors kcEnv (kcEnv.blocks.length + 1) 14).reverse ∧
+    (kcEnv.tx 5).ins = [] := by decide
+
+private theorem kcW14_all : LedgerAll kcEnv (walk kcEnv kcS6 0 14 false).1 [100, 8, 2, 5] ∧
+    ChainLog kcEnv (walk kcEnv kcS6 0 14 false).1 [100, 8, 2, 5] := by
+  obtain ⟨g0, _, g1, g2, g3, g4, _⟩ := kcW14_hyp
+  obtain ⟨C', c1, c2, c3⟩ := walk_LedgerAll_chain_full kcEnv kcS6 0 14 false [100, 9, 2] kcEnv_lower g0 kcS6_all.1
+    kcS6_all.2 g1 g2 g3 g4
+  have hC : C' = [100, 8, 2, 5] := (c3 kcW14_ok).trans (by decide)
+  rw [hC] at c1 c2
+  exact ⟨c1, c2⟩
+
+example : (walk kcEnv kcS6 0 14 false).2 = true ∧ (walk kcEnv kcS6 0 14 false).1.pointer = 14 ∧
+    (walk kcEnv kcS6 0 14 false).1.pool = [4] ∧ curVer (walk kcEnv kcS6 0 14 false).1 "k" = some (5, 0) ∧
+    LedgerAll kcEnv (walk kcEnv kcS6 0 14 false).1 [100, 8, 2, 5] ∧
+    ChainLog kcEnv (walk kcEnv kcS6 0 14 false).1 [100, 8, 2, 5] :=
+  ⟨kcW14_ok, by decide, by decide, by decide, kcW14_all.1, kcW14_all.2⟩
+
+-- ... and for the walk from `kcS6` to 15, which FAILS at block 15
+private theorem kcW15_fail : (walk kcEnv kcS6 0 15 false).2 = false := by decide
+
+private theorem kcW15_hyp : undoTodo kcEnv kcS6.pointer 15 = ([11], [12, 15]) ∧
+    (∀ bi ∈ (undoTodo kcEnv kcS6.pointer 15).2, (kcEnv.block bi).id = bi) ∧
+    (blockTxs kcEnv (ancestors kcEnv (kcEnv.blocks.length + 1) 15).reverse).Nodup ∧
+    (∀ bi ∈ (undoTodo kcEnv kcS6.pointer 15).2, (∀ i ∈ (kcEnv.block bi).txs, (kcEnv.tx i).id = i) ∧
+      (∀ i ∈ (kcEnv.block bi).txs, (kcEnv.tx i).coinbase = true →
+        (kcEnv.tx i).ins = [] ∧ feeOf (kcEnv.tx i).outs = 0) ∧
+      (∀ i ∈ (kcEnv.block bi).txs, ((kcEnv.tx i).kout.map (·.key)).Nodup)) ∧
+    (∀ i ∈ kcS6.pool, i ∈ blockTxs kcEnv (ancestors kcEnv (kcEnv.blocks.length + 1) 15).reverse →
+      (kcEnv.tx i).ins ≠ [] ∨ (kcEnv.tx i).kout ≠ []) := by decide
+
+private theorem kcW15_chain : ChainLog kcEnv (walk kcEnv kcS6 0 15 false).1 [100, 8, 1] := by decide
+
+private theorem kcW15_all : LedgerAll kcEnv (walk kcEnv kcS6 0 15 false).1 [100, 8, 1] := by
+  obtain ⟨_, g1, g2, g3, g4⟩ := kcW15_hyp
+  obtain ⟨C', c1, c2, _⟩ := walk_LedgerAll_chain_full kcEnv kcS6 0 15 false [100, 9, 2] kcEnv_lower kcW14_hyp.1
+    kcS6_all.1 kcS6_all.2 g1 g2 g3 g4
+  have hC : C' = [100, 8, 1] := by
+    unfold ChainLog at c2
+    have h3 := kcW15_chain
+    unfold ChainLog at h3
+    rw [c2, ← h3]
+  rw [hC] at c1
+  exact c1
+
+example : (walk kcEnv kcS6 0 15 false).2 = false ∧ (walk kcEnv kcS6 0 15 false).1.pointer = 12 ∧
+    (walk kcEnv kcS6 0 15 false).1.pool = [] ∧ curVer (walk kcEnv kcS6 0 15 false).1 "k" = none ∧
+    (todoBlock kcEnv (walk kcEnv kcS6 0 15 false).1 0 (kcEnv.block 15)).isSome = false ∧
+    LedgerAll kcEnv (walk kcEnv kcS6 0 15 false).1 [100, 8, 1] ∧
+    ChainLog kcEnv (walk kcEnv kcS6 0 15 false).1 [100, 8, 1] :=
+  ⟨kcW15_fail, by decide, by decide, by decide, by decide, kcW15_all, kcW15_chain⟩
 
 end XV.C01
